@@ -162,15 +162,15 @@ MCS == MCTypes \cap SignedTypes
 (* binary functions are enumerated over all pairs of types of at most 8 bits; wider types
    (real 16-bit) over all left operands x a boundary set of right operands *)
 (* constant tables (evaluated once) *)
-EdgeTab == [t \in Types |->
+EdgeTab == Tabulated([t \in Types |->
   IF ~Small(t) THEN {}
   ELSE {x \in Values(t) : \/ Abs(x) <= 2 \/ x >= Max(t) - 2 \/ x <= Min(t) + 2
-                           \/ \E k \in 1..15 : Abs(Abs(x) - P2[k]) <= 1}]
-RightTab == [t \in Types |-> IF ~Small(t) THEN {} ELSE IF Bits(t) <= 8 THEN Values(t) ELSE EdgeTab[t]]
-ClampTab == [t \in Types |->
+                           \/ \E k \in 1..15 : Abs(Abs(x) - P2[k]) <= 1}])
+RightTab == Tabulated([t \in Types |-> IF ~Small(t) THEN {} ELSE IF Bits(t) <= 8 THEN Values(t) ELSE EdgeTab[t]])
+ClampTab == Tabulated([t \in Types |->
   IF ~Small(t) THEN {}
   ELSE IF Bits(t) <= 6 THEN Values(t)
-  ELSE {x \in Values(t) : Abs(x) <= 12 \/ x >= Max(t) - 3 \/ x <= Min(t) + 3}]
+  ELSE {x \in Values(t) : Abs(x) <= 12 \/ x >= Max(t) - 3 \/ x <= Min(t) + 3}])
 Right(T) == RightTab[T]
 Left(T) == RightTab[T]
 ClampDom(T) == ClampTab[T]
